@@ -168,6 +168,9 @@ func VH_C06_sync() {
 	cfg := &config.HookConfig{Version: zz.ConcretizeStr(version)}
 	exec := make([]bool, nb)
 	group := make([]string, nb)
+	// allowFailure (the same for all bindings of the hook): a failed Synchronization
+	// run is then dropped instead of retried - and the events are unlocked all the same
+	allow := zz.Bool("allow_failure")
 	for i := 0; i < nb; i++ {
 		si := strconv.Itoa(i)
 		exec[i] = zz.Bool("exec_on_sync" + si)
@@ -175,7 +178,7 @@ func VH_C06_sync() {
 		mc := &kubeeventsmanager.MonitorConfig{}
 		mc.Metadata.MonitorId = "mon-" + si
 		cfg.OnKubernetesEvents = append(cfg.OnKubernetesEvents, htypes.OnKubernetesEventConfig{
-			CommonBindingConfig: htypes.CommonBindingConfig{BindingName: "kb" + si, AllowFailure: false},
+			CommonBindingConfig: htypes.CommonBindingConfig{BindingName: "kb" + si, AllowFailure: allow},
 			Monitor:             mc, Queue: "main", Group: group[i], ExecuteHookOnSynchronization: exec[i],
 		})
 	}
@@ -237,9 +240,20 @@ func VH_C06_sync() {
 					}
 				}
 			}
-			if !want {
+			inFailedRun := false
+			if failFirst && len(delivered) > 0 {
+				for _, s := range delivered[0] {
+					if s == "kb"+strconv.Itoa(i)+"/"+string(kemtypes.TypeSynchronization)+"/" {
+						inFailedRun = true
+					}
+				}
+			}
+			switch {
+			case !want:
 				zz.Assert(cnt == 0, "no_synchronization_when_not_requested")
-			} else {
+			case inFailedRun && allow:
+				zz.Assert(cnt == 1 && okRuns == 0, "allowed_failure_is_not_retried")
+			default:
 				zz.Assert(okRuns == 1, "synchronization_delivered_once")
 			}
 		}
@@ -276,6 +290,8 @@ func VH_C06_sync() {
 		}
 		if wanting == 0 {
 			zz.Assert(runsWith == 0, "no_group_synchronization_when_no_member_requests_it")
+		} else if failFirst && allow {
+			zz.Assert(runsWith >= 1, "group_synchronization_delivered")
 		} else {
 			zz.Assert(okRunsWith >= 1, "group_synchronization_delivered")
 			zz.Assert(okRunsWith <= wanting, "group_members_share_executions")
